@@ -14,6 +14,7 @@ EXPLANATION = (
     "(R04.7) the idle listing of every tracker excludes Ok(Wasted) tracks, so what a scene reports does not depend on the collection timing driven by other scenes' calls."
     ' (R04.8) PredictionBatchRequest::add files a detection under its own scene: the per-scene entry is selected and created by the scene id (keyed lookup), never by position in the batch; (R04.9) tracks of other scenes only add empty columns to the assignment: winners always derive from the one maximising assignment over an id-indexed matrix; R04.7 also covers wasted().'
     ' (R04.10) a scene keeps its own clock and its own live tracks whatever other scenes do: epoch counters are never removed, the tracker-wide collection moves only tracks whose status is Ok(Wasted).')
+EXPLANATION += ' Round 6 (R04.10): only next_epoch / skip_epochs_for_scene take the write lock of the epoch store and write through it; EpochDb::baked reads the map through get(&scene_id) only.'
 NOT_DECIDED = ["non-interference of whole runs as a two-run comparison", "the shared auto-waste counter (GC timing is "
                "covered by C03 R03.4: observers do not depend on it)"]
 ASSUMPTIONS = ["rustc nightly MIR construction", "Track::distances is the only path to the metric (checked in C02 R02.4)"]
@@ -43,6 +44,8 @@ def run(ctx):
     ctx.rule('R04.10', 'a scene keeps its own clock and its own live tracks whatever other scenes do: epoch counters are never '
                        'removed; the tracker-wide collection moves only tracks whose status is Ok(Wasted)')
     n = T.rule_epochs_never_forgotten(ctx, 'R04.10')
+    n += T.rule_epoch_writers(ctx, 'R04.10')
+    n += T.rule_status_reads_own_scene(ctx, 'R04.10')
     n += T.rule_only_expired_migrate(ctx, 'R04.10')
     ctx.floor('R04.10', n, 3)
     import votinglib as V
